@@ -185,12 +185,17 @@ pub struct IssueReq<'a> {
     pub exp_in: Option<i64>,
     /// how many times `encode` is called on the same issuer object
     pub repeats: usize,
+    /// when > 0 (and `repeats` > 1): only the first `late_marks` paths are marked before the earlier `encode`
+    /// calls, the others are marked afterwards, before the last call (an issuer that caches what it prepared
+    /// must notice the new markings)
+    pub late_marks: usize,
 }
 
 pub fn issue(req: &IssueReq, key: &KeyForEncoding) -> Out<Vec<String>> {
     guard(|| {
         let mut issuer = Issuer::new(req.claims.clone())?;
-        for p in req.paths {
+        let late = if req.repeats > 1 && req.late_marks > 0 && req.late_marks < req.paths.len() { req.late_marks } else { req.paths.len() };
+        for p in &req.paths[..late] {
             issuer.disclosable(p);
         }
         if let Some(n) = req.decoy {
@@ -206,7 +211,11 @@ pub fn issue(req: &IssueReq, key: &KeyForEncoding) -> Out<Vec<String>> {
             issuer.expires_in_seconds(n);
         }
         let mut outs = Vec::new();
-        for _ in 0..req.repeats.max(1) {
+        let n = req.repeats.max(1);
+        for round in 0..n {
+            if round == n - 1 {
+                for p in &req.paths[late..] { issuer.disclosable(p); }
+            }
             outs.push(issuer.encode(key)?);
         }
         Ok(outs)
